@@ -686,6 +686,10 @@ func (in *Interp) sprintf(caller *frame, format *StrV, args []Value) *StrV {
 				}
 			}
 			pad := width - digits
+			hexStart := len(out)
+			if !zero {
+				hexStart += max(pad, 0)
+			}
 			for ; pad > 0; pad-- {
 				if zero {
 					lit("0")
@@ -708,6 +712,9 @@ func (in *Interp) sprintf(caller *frame, format *StrV, args []Value) *StrV {
 					r = Ite(Eq(nib, Const(4, uint64(k))), Const(8, uint64(tab[k])), r)
 				}
 				out = append(out, r)
+			}
+			if !t.IsConst() {
+				in.numRecord(append([]*Term(nil), out[hexStart:]...), &numEntry{val: ZExt(t, 64), base: 16})
 			}
 		case 'd':
 			iv, _ := arg.(*IfaceV)
